@@ -52,7 +52,7 @@ def run_lines(exe, lines, sanitized=False, timeout=1800):
     answers = []
     reports = {}
     env = dict(os.environ)
-    env["ASAN_OPTIONS"] = "detect_leaks=0:allocator_may_return_null=1:replace_str=0"
+    env["ASAN_OPTIONS"] = "detect_leaks=0:allocator_may_return_null=1"
     env["UBSAN_OPTIONS"] = "print_stacktrace=0"
     start = 0
     while start < len(lines):
